@@ -10,6 +10,7 @@ from z3 import *
 from pyvc.core import *
 
 PROPS = ['C09', 'C08']
+REPLAY = {'driver': 'labels'}
 TRUSTED = [
     "dict(d) / d.copy() allocate a fresh dict with d's content; d.update(o) is the map merge (o wins)",
     "prepare_label contract (unit u_labels): returns (text, tag) functions of the value only",
@@ -184,8 +185,9 @@ def theorem(t, l, tid, b2, sid):
             pre = st.heap; a_ = Int('a_'); Inv0 = Inv
             wl = [roles['fa']] if itx == 'args' else []; wd = [roles['fk']] if itx == 'kwargs.items()' else ([roles['lt'], roles['lg']] if itx == 'self.labels.items()' else [])
             def Inv(sx, i):          # + frame: the loop writes only the collections it fills
-                return Inv0(sx, i) + [ForAll([a_], Implies(And(*[a_ != w for w in wl]), And(sx.heap.litem[a_] == pre.litem[a_], sx.heap.llen[a_] == pre.llen[a_]))),
-                                      ForAll([a_], Implies(And(*[a_ != w for w in wd]), And(sx.heap.dhas[a_] == pre.dhas[a_], sx.heap.dval[a_] == pre.dval[a_])))]
+                def none_of(ws): return And(*[a_ != w for w in ws]) if ws else BoolVal(True)
+                return Inv0(sx, i) + [ForAll([a_], Implies(none_of(wl), And(sx.heap.litem[a_] == pre.litem[a_], sx.heap.llen[a_] == pre.llen[a_]))),
+                                      ForAll([a_], Implies(none_of(wd), And(sx.heap.dhas[a_] == pre.dhas[a_], sx.heap.dval[a_] == pre.dval[a_])))]
             for c in Inv(st, IntVal(0)): oblige(st, f"_prepare_message/loop({itx})/inv-entry  [C08/C09]", c, replay=RP)
             it = st.fork(); hv(it); i = fresh('i', IntSort()); it.pc += [i >= 0, i < cnt_]; assume(it, Inv(it, i)); it.env = dict(it.env); bind(it, i)
             def back(s3):
